@@ -1179,5 +1179,77 @@ theorem escape_head (s : Str) : ∀ h ∈ (escape s).head?, h ≠ 34 ∧ h ≠ 3
       rw [head?_append_of_ne_nil _ _ (escapeChar_ne_nil _ c)]
       exact escapeChar_head _ c
 
+/-! ### The spelling chosen by `escape` is one of the admissible spellings -/
+
+/-- A spelling that is admissible whatever follows, with the value `v`. -/
+def SpellsAnywhere (text v : Str) : Prop :=
+  ∃ forms, text = renderIdentWith forms ∧ valueOf forms = v ∧ (∀ r, validForms forms r = true) ∧
+    ∀ p ∈ forms, rangeOk p.1 p.2 = true
+
+theorem escapeChar_form (lead : Bool) (c : Nat) :
+    ∃ f, escapeChar lead c = renderForm (if c == 0 then 0xFFFD else c) f ∧
+      (∀ next, formOk (if c == 0 then 0xFFFD else c) f next = true) ∧
+      rangeOk (if c == 0 then 0xFFFD else c) f = true := by
+  cases escapeChar_piece lead c with
+  | nul h0 he =>
+    refine ⟨.lit, ?_, ?_, ?_⟩
+    · rw [he]; simp [h0, renderForm]
+    · intro _; simp [h0, formOk, identContChar]
+    · simp [rangeOk, isHexForm]
+  | hex h0 h128 he =>
+    have hc0 : (c == 0) = false := by simp; omega
+    have hl := hexDigits_length_le_two c (by omega)
+    refine ⟨.hex (hexDigits c).length [] (some .space), ?_, ?_, ?_⟩
+    · rw [he, hc0]
+      simp [renderForm, hexText, mixCase_nil_mask, wsText, WsUnit.text]
+    · intro _
+      rw [hc0]
+      simp only [formOk, hexOk, termOk, Bool.false_eq_true, if_false, Bool.and_eq_true,
+        decide_eq_true_eq]
+      exact ⟨⟨Nat.le_refl _, by omega⟩, trivial⟩
+    · rw [hc0]; simp [rangeOk, isHexForm]; omega
+  | lit hc _ he =>
+    have hc0 : (c == 0) = false := by rw [identContChar_iff] at hc; simp; omega
+    refine ⟨.lit, ?_, ?_, ?_⟩
+    · rw [he, hc0]; simp [renderForm]
+    · intro _; rw [hc0]; simpa [formOk] using hc
+    · simp [rangeOk, isHexForm]
+  | bs h32 h127 hh _ he =>
+    have hc0 : (c == 0) = false := by simp; omega
+    have h10 : c ≠ 10 := by omega
+    have h13 : c ≠ 13 := by omega
+    have h12 : c ≠ 12 := by omega
+    refine ⟨.bs, ?_, ?_, ?_⟩
+    · rw [he, hc0]; simp [renderForm]
+    · intro _; rw [hc0]; simp [formOk, hh, h10, h13, h12]
+    · simp [rangeOk, isHexForm]
+
+theorem escapeGo_spells (sd : Bool) (s : Str) : ∀ i, SpellsAnywhere (escapeGo sd i s) (nulToFFFD s) := by
+  induction s with
+  | nil => intro i; exact ⟨[], rfl, rfl, fun _ => rfl, by simp⟩
+  | cons c cs ih =>
+    intro i
+    obtain ⟨forms, ht, hval, hv, hr⟩ := ih (i + 1)
+    obtain ⟨f, he, hok, hrg⟩ := escapeChar_form (i == 0 || (sd && i == 1)) c
+    refine ⟨((if c == 0 then 0xFFFD else c), f) :: forms, ?_, ?_, ?_, ?_⟩
+    · simp only [escapeGo, renderIdentWith_cons]; rw [he, ht]
+    · simp only [valueOf, List.map_cons, nulToFFFD] at hval ⊢; rw [hval]
+    · intro r; rw [validForms_cons, hok, hv r]; rfl
+    · intro p hp
+      rw [List.mem_cons] at hp
+      rcases hp with hp | hp
+      · rw [hp]; exact hrg
+      · exact hr p hp
+
+/-- `escape s` is, for every `s`, one of the spellings of `nulToFFFD s` quantified over by the
+    C09 theorems (and one that is admissible in front of any text). -/
+theorem escape_spells (s : Str) : SpellsAnywhere (escape s) (nulToFFFD s) := by
+  rcases escape_eq_dash_or_go s with ⟨hs, he⟩ | he
+  · rw [he, hs]
+    refine ⟨[(45, .bs)], by simp [renderIdentWith, renderForm], by simp [valueOf, nulToFFFD], ?_, ?_⟩
+    · intro r; simp [validForms, formOk, isHex]
+    · intro p hp; simp at hp; subst hp; simp [rangeOk, isHexForm]
+  · rw [he]; exact escapeGo_spells _ s 0
+
 end SpellingLemmas
 end SoupVerif
